@@ -93,6 +93,83 @@ func shapeText(fset *token.FileSet, n ast.Node, pkgs map[string]bool) string {
 	return exprText(fset, n)
 }
 
+// collectsAndSorts recognises a range over a map whose body only appends (possibly under a call-free condition) the
+// key or value to ONE slice, and a later statement of the same function that sorts that slice (sort.Strings / Ints /
+// Slice / SliceStable / Sort, slices.Sort*).
+func collectsAndSorts(fset *token.FileSet, r *ast.RangeStmt, fn *ast.BlockStmt) bool {
+	target := ""
+	ok := true
+	var check func(stmts []ast.Stmt)
+	check = func(stmts []ast.Stmt) {
+		for _, st := range stmts {
+			switch y := st.(type) {
+			case *ast.AssignStmt:
+				if len(y.Lhs) != 1 || len(y.Rhs) != 1 {
+					ok = false
+					return
+				}
+				call, isCall := y.Rhs[0].(*ast.CallExpr)
+				id, isId := y.Lhs[0].(*ast.Ident)
+				if !isCall || !isId || exprText(fset, call.Fun) != "append" || len(call.Args) < 2 || exprText(fset, call.Args[0]) != id.Name {
+					ok = false
+					return
+				}
+				for _, a := range call.Args[1:] {
+					hasCall := false
+					ast.Inspect(a, func(n ast.Node) bool {
+						if _, c := n.(*ast.CallExpr); c {
+							hasCall = true
+						}
+						return true
+					})
+					if hasCall {
+						ok = false
+						return
+					}
+				}
+				if target != "" && target != id.Name {
+					ok = false
+					return
+				}
+				target = id.Name
+			case *ast.IfStmt:
+				hasCall := false
+				ast.Inspect(y.Cond, func(n ast.Node) bool {
+					if _, c := n.(*ast.CallExpr); c {
+						hasCall = true
+					}
+					return true
+				})
+				if hasCall || y.Init != nil || y.Else != nil {
+					ok = false
+					return
+				}
+				check(y.Body.List)
+			default:
+				ok = false
+				return
+			}
+		}
+	}
+	check(r.Body.List)
+	if !ok || target == "" {
+		return false
+	}
+	sorted := false
+	ast.Inspect(fn, func(n ast.Node) bool {
+		call, isCall := n.(*ast.CallExpr)
+		if !isCall || call.Pos() < r.End() || len(call.Args) == 0 {
+			return true
+		}
+		f := exprText(fset, call.Fun)
+		if (strings.HasPrefix(f, "sort.") || strings.HasPrefix(f, "slices.Sort")) && exprText(fset, call.Args[0]) == target {
+			sorted = true
+		}
+		return true
+	})
+	return sorted
+}
+
 var panicSelectors = map[string]bool{
 	"Int64": true, "Uint64": true, "NewCoins": true, "NewCoin": true, "NewInt64Coin": true,
 	"NewDecCoins": true, "NewDecCoin": true, "MustNewDecFromStr": true, "MustUnmarshal": true, "MustMarshal": true,
@@ -111,6 +188,7 @@ func runInventoryCmd(args []string) {
 	out := fs.String("out", "Sites.v", "output .v file")
 	fs.Parse(args)
 	var panicSites, mapRanges, clockSites, stateSites []string
+	sortedRanges := 0
 	// first pass: functions whose first result is a map, struct fields of map type
 	mapFuncs := map[string]bool{}
 	mapFields := map[string]bool{}
@@ -334,6 +412,12 @@ func runInventoryCmd(args []string) {
 						case *ast.CompositeLit:
 							isMap = r.Type != nil && isMapType(r.Type)
 						}
+						if isMap && collectsAndSorts(fset, x, fd.Body) {
+							// `for k := range m { [if pure-cond] keys = append(keys, k) }` followed by sort.*(keys): the loop
+							// computes a set of keys and the order is fixed afterwards - order independent by construction
+							sortedRanges++
+							isMap = false
+						}
 						if isMap {
 							// fingerprint of the body: statements that leave the loop early (their effect depends on which
 							// entries came first) and the calls made through a keeper / store (effects that have to commute)
@@ -426,5 +510,5 @@ func runInventoryCmd(args []string) {
 		fmt.Println(err)
 		os.Exit(2)
 	}
-	fmt.Printf("INVENTORY panic_sites=%d map_ranges=%d clock_sites=%d state_sites=%d\n", len(panicSites), len(mapRanges), len(clockSites), len(stateSites))
+	fmt.Printf("INVENTORY panic_sites=%d map_ranges=%d clock_sites=%d state_sites=%d map_ranges_collect_then_sort=%d\n", len(panicSites), len(mapRanges), len(clockSites), len(stateSites), sortedRanges)
 }
